@@ -45,35 +45,67 @@ class Req:
 REFUSED = (InvalidHeader, InvalidHeaderName, TypeError, ValueError, UnicodeEncodeError, AssertionError)
 
 
-def judge_head(head, resp):
-    """structure of the emitted head; `head` may be symbolic bytes"""
-    n = len(head)
-    crlf = 0
-    for i in range(n):
-        c = head[i]
-        if c == 0:
+DATE = "Thu, 01 Jan 2026 00:00:00 GMT"
+
+
+def no_ctl(text):
+    for ch in text:
+        c = ord(ch)
+        if c == 0 or c == 10 or c == 13 or c > 255:
             return False
-        if c == 13:
-            if i + 1 >= n or head[i + 1] != 10:
-                return False
-            crlf += 1
-        elif c == 10:
-            if i == 0 or head[i - 1] != 13:
-                return False
-    want = 1 + 3 + (1 if resp.chunked else 0) + len(resp.headers) + 1
-    if crlf != want:
+    return True
+
+
+def expected_head(status, app_headers, chunked=True, connection="keep-alive"):
+    """the head the client must receive: the server's own lines, one line per accepted application header, blank line.
+    Built from the same (possibly symbolic) strings, so the comparison with the wire is one sequence equality."""
+    lines = ["HTTP/1.1 " + status, "Server: " + wsgi.SERVER, "Date: " + DATE, "Connection: " + connection]
+    if chunked:
+        lines.append("Transfer-Encoding: chunked")
+    for k, v in app_headers:
+        lines.append(k + ": " + v)
+    return ("\r\n".join(lines) + "\r\n\r\n").encode("latin-1")
+
+
+def judge_head(head, resp, status="200 OK", fields=()):
+    """`fields` = the symbolic strings that went into the head: they must be free of CR/LF/NUL, and the wire must be
+    exactly the expected head (so nothing else can have introduced a line break either)."""
+    for f in fields:
+        if not no_ctl(f):
+            return False
+    return head == expected_head(status, resp.headers, chunked=resp.chunked,
+                                 connection="close" if resp.should_close() else "keep-alive")
+
+
+def judge_pieces(resp, status, fields=()):
+    """Symbolic obligations judge the pieces send_headers() joins (the join + latin-1 encoding of a ~130 character head
+    costs one solver query per character and path): the server's own lines are exactly the expected ones, the status
+    line is exactly 'HTTP/1.1 <status>CRLF', every accepted application header and every symbolic field is free of
+    CR/LF/NUL and of characters above 0xFF.  The concrete obligations (second_call, C02.*) judge the bytes on the wire."""
+    for f in fields:
+        if not no_ctl(f):
+            return False
+    want = ["HTTP/1.1 " + status + "\r\n", "Server: " + wsgi.SERVER + "\r\n", "Date: " + DATE + "\r\n",
+            "Connection: " + ("close" if resp.should_close() else "keep-alive") + "\r\n"]
+    if resp.chunked:
+        want.append("Transfer-Encoding: chunked\r\n")
+    if resp.default_headers() != want:
         return False
-    return n >= 4 and head[n - 4] == 13 and head[n - 2] == 13      # ends with CRLF CRLF
+    for k, v in resp.headers:
+        if not no_ctl(k) or not no_ctl(v):
+            return False
+    return True
 
 
-def emit(status, headers, second=None):
+def emit(status, headers, second=None, send=True):
     s = RecSock()
     resp = wsgi.Response(Req(), s, SimpleNamespace(is_ssl=False, sendfile=None))
     try:
         resp.start_response(status, headers)
         if second is not None:
             resp.start_response(second[0], second[1], (ValueError, ValueError("x"), None))
-        resp.send_headers()
+        if send:
+            resp.send_headers()
     except REFUSED:
         return s, resp, True
     return s, resp, False
@@ -85,12 +117,10 @@ def status_tail(tail: str) -> bool:
     pre: kf_ok("C09.status_tail", tail=tail)
     post: __return__
     """
-    s, resp, refused = emit("200 " + tail, [("X-A", "b")])
+    s, resp, refused = emit("200 " + tail, [("X-A", "b")], send=False)
     if refused:
         return len(s.out) == 0
-    if len(s.out) != 1:
-        return False
-    return judge_head(s.out[0], resp)
+    return judge_pieces(resp, "200 " + tail, [tail])
 
 
 def header_name(name: str) -> bool:
@@ -98,10 +128,10 @@ def header_name(name: str) -> bool:
     pre: len(name) == CASE["n"]
     post: __return__
     """
-    s, resp, refused = emit("200 OK", [(name, "v")])
+    s, resp, refused = emit("200 OK", [(name, "v")], send=False)
     if refused:
         return len(s.out) == 0
-    if len(s.out) != 1 or not judge_head(s.out[0], resp):
+    if not judge_pieces(resp, "200 OK", [name]):
         return False
     # accepted: an RFC 9110 token, and not a hop-by-hop name
     for ch in name:
@@ -122,10 +152,10 @@ def header_value(value: str) -> bool:
     pre: len(value) == CASE["n"]
     post: __return__
     """
-    s, resp, refused = emit("200 OK", [(CASE["name"], value)])
+    s, resp, refused = emit("200 OK", [(CASE["name"], value)], send=False)
     if refused:
         return len(s.out) == 0
-    if len(s.out) != 1 or not judge_head(s.out[0], resp):
+    if not judge_pieces(resp, "200 OK", [value]):
         return False
     low = CASE["name"].lower()
     if low in HOP and low != "upgrade":
@@ -133,19 +163,27 @@ def header_value(value: str) -> bool:
     return True
 
 
-def hop_case(mask: int, value: str) -> bool:
+def hop_case(mask: int, style: int, value: str) -> bool:
     """
-    pre: 0 <= mask < 2 ** len(CASE["name"])
+    pre: 0 <= mask < 16 and 0 <= style <= 3
     pre: len(value) <= 1
     post: __return__
     """
     base = CASE["name"]
-    mask = pick(mask, 0, 2 ** len(base) - 1)
-    name = "".join(ch.upper() if (mask >> i) & 1 else ch for i, ch in enumerate(base))
-    s, resp, refused = emit("200 OK", [(name, "x" + value), ("X-Keep", "1")])
+    mask, style = pick(mask, 0, 15), pick(style, 0, 3)
+    # case of the first four letters from the mask; the rest lower / upper / alternating / title-case
+    out = []
+    for i, ch in enumerate(base):
+        if i < 4:
+            up = (mask >> i) & 1
+        else:
+            up = [0, 1, i % 2, 1 if base[i - 1] == "-" else 0][style]
+        out.append(ch.upper() if up else ch)
+    name = "".join(out)
+    s, resp, refused = emit("200 OK", [(name, "x" + value), ("X-Keep", "1")], send=False)
     if refused:
         return len(s.out) == 0
-    if len(s.out) != 1 or not judge_head(s.out[0], resp):
+    if not judge_pieces(resp, "200 OK", [value]):
         return False
     return [k for k, _ in resp.headers] == ["X-Keep"]
 
@@ -172,7 +210,7 @@ def second_call(sent_first: bool, n1: int, n2: int) -> bool:
     if sent_first:
         return False
     resp.send_headers()
-    if len(s.out) != 1 or not judge_head(s.out[0], resp):
+    if len(s.out) != 1 or not judge_head(s.out[0], resp, "500 Oops"):
         return False
     # PEP 3333: the second call REPLACES the stored headers: exactly the second call's headers are on the wire
     return [k for k, _ in resp.headers] == [k for k, _ in second] and s.out[0].startswith(b"HTTP/1.1 500 Oops\r\n")
@@ -193,21 +231,38 @@ def refused_then_sent(tail: str) -> bool:
         resp.start_response("500 " + tail, [("X-B", "2")], (ValueError, ValueError("x"), None))
     except REFUSED:
         refused = True
-    resp.send_headers()
-    if len(s.out) != 1 or not judge_head(s.out[0], resp):
-        return False
     if refused:
-        return s.out[0][:17] == b"HTTP/1.1 200 OK\r\n"
-    return True
+        # nothing of the refused call may survive: the head that goes out is the first call's, byte for byte
+        resp.send_headers()
+        return len(s.out) == 1 and judge_head(s.out[0], resp, "200 OK")
+    return judge_pieces(resp, "500 " + tail, [tail])
+
+
+WIRE = [("200 OK", [("X-A", "b")]), ("404 Not Found", [("X-A", " b\t"), ("Set-Cookie", "a=b"), ("Upgrade", "websocket")]),
+        ("200 \xe9t\xe9", [("X-\x41", "\xfc")]), ("500 x", []), ("200 OK", [("Connection", "upgrade"), ("Upgrade", "websocket")])]
+
+
+def wire(i: int) -> bool:
+    """
+    pre: 0 <= i < len(WIRE)
+    post: __return__
+    """
+    status, hdrs = WIRE[pick(i, 0, len(WIRE) - 1)]
+    s, resp, refused = emit(status, hdrs)
+    if refused or len(s.out) != 1:
+        return False
+    conn = "upgrade" if resp.upgrade else ("close" if resp.should_close() else "keep-alive")
+    return s.out[0] == expected_head(status, resp.headers, chunked=resp.chunked, connection=conn)
 
 
 def status_tail_twin(tail: str) -> bool:
     """
     pre: len(tail) == CASE["n"]
+    pre: all(32 <= ord(c) < 127 for c in tail)
     post: __return__
     """
-    s, resp, refused = emit("200 " + tail, [("X-A", "b")])
-    return refused or len(s.out) != 1
+    s, resp, refused = emit("200 " + tail, [("X-A", "b")], send=False)
+    return refused
 
 
 def header_name_twin(name: str) -> bool:
@@ -215,7 +270,7 @@ def header_name_twin(name: str) -> bool:
     pre: len(name) == CASE["n"]
     post: __return__
     """
-    s, resp, refused = emit("200 OK", [(name, "v")])
+    s, resp, refused = emit("200 OK", [(name, "v")], send=False)
     return refused or len(resp.headers) != 1
 
 
@@ -224,7 +279,7 @@ def header_value_twin(value: str) -> bool:
     pre: len(value) == CASE["n"]
     post: __return__
     """
-    s, resp, refused = emit("200 OK", [(CASE["name"], value)])
+    s, resp, refused = emit("200 OK", [(CASE["name"], value)], send=False)
     return refused or len(resp.headers) != 1
 
 
@@ -245,7 +300,9 @@ OBLIGATIONS = [
     Ob("C09.header_value.twin", "header_value_twin", cases=[{"name": "X-A", "n": 2}], expect="refute", timeout=120),
     Ob("C09.hop", "hop_case", cases=[{"name": nm} for nm in ("te", "date", "server", "trailers", "keep-alive", "connection",
                                                             "transfer-encoding", "proxy-authenticate", "proxy-authorization")],
-       timeout=600, bound="every hop-by-hop name in every upper/lower-case spelling, value 'x' + <=1 arbitrary character"),
+       timeout=600, bound="every hop-by-hop name with all 16 case patterns of its first four letters x 4 styles for the rest, value 'x' + <=1 arbitrary character"),
+    Ob("C09.wire", "wire", timeout=300, bound="5 concrete heads incl. latin-1 characters, padded values and the websocket upgrade pair: "
+                                              "bytes on the wire = the pieces joined and latin-1 encoded"),
     Ob("C09.second_call", "second_call", timeout=300,
        bound="second start_response(exc_info) before/after the head was sent; 0..2 headers in each call incl. Content-Length"),
 ]
